@@ -351,7 +351,6 @@ pub fn structural_seeds() -> Vec<Seed> {
         seed_gc_ready(),
         seed_recreated(),
         seed_recreated_from_zero(),
-        seed_recreated_after_emptied(),
         seed_future(),
     ]
 }
@@ -569,6 +568,9 @@ pub fn all_seeds() -> Vec<Seed> {
     v.push(seed_sliding_window(8, 2));
     v.extend(long_history_seeds());
     v.push(seed_zero_only());
+    // (appended last: the real geometry's quick tier takes every 4th seed of this list, and a
+    // seed inserted in the middle would change which ones those are)
+    v.push(seed_recreated_after_emptied());
     v
 }
 
